@@ -86,6 +86,26 @@ def run(ctx, log):
         for label, got in (("release", o), ("debug", d)):
             if progcheck.head(got) != e:
                 ctx.violate("a loop run many times left a residue / later code behaved differently (%s build)" % label, source=s, observed=got[:200], expected=e)
+    # where code lands must not matter: every template at every code offset of a range that covers the one- and
+    # two-byte operand boundaries and the jump placeholder (metamorphic on the implementation; a sample in Coq)
+    offs = list(range(0, 620)) + list(range(1200, 1500)) + ([] if ctx.quick else list(range(620, 1200)) + list(range(1500, 5200)))
+    sweep = progcheck.layout_sweep(offs)
+    base_obs = vlib.nlh("eval", ["200000 " + vlib.hexs(src) for src, _ in progcheck.LAYOUT_TEMPLATES], tag="c11lb")
+    so = vlib.nlh("eval", ["200000 " + vlib.hexs(src) for _, _, src in sweep], tag="c11ls", timeout=600)
+    for (t, k, src), o in zip(sweep, so):
+        ctx.seen(("layout", t, k))
+        ctx.count("layout-sweep")
+        if progcheck.visible(o) != progcheck.visible(base_obs[t]):
+            ctx.violate("the same construct behaves differently when it is compiled at code offset %d" % k, source=src if len(src) < 1500 else "(%d bytes of `ja;` padding) " % k + progcheck.LAYOUT_TEMPLATES[t][0],
+                        observed=progcheck.visible(o)[:300], expected=progcheck.visible(base_obs[t])[:300], offset=k)
+    pick = rng.sample(range(len(sweep)), 60 if ctx.quick else 400)
+    runcorr.run_corr(ctx, [sweep[i][2] for i in pick], log, budget=200000, stages=("compile", "eval"), label="layout-sweep-model", shard_size=8)
+    for src, exp in progcheck.big_program_family():
+        o = vlib.nlh("eval", ["3000000 " + vlib.hexs(src)], tag="c11big", timeout=300)[0]
+        ctx.seen(("big", len(src)))
+        ctx.count("big-programs")
+        if progcheck.head(o) not in (exp, "ERR Syntax"):
+            ctx.violate("a program whose code crosses 64 KiB neither ran correctly nor was rejected as too large", source="(array literal program of %d characters)" % len(src), observed=o[:200], expected=exp + " or ERR Syntax")
     ctx.sample(dict(source=progs[5][:300], eval=obs["eval"][5][:200]))
     ctx.sample(dict(source=LONG[1], eval=long_obs[1][:100]))
 
